@@ -2,7 +2,10 @@ module verif/harness
 
 go 1.23.0
 
-require github.com/versity/versitygw v0.0.0
+require (
+	github.com/pkg/xattr v0.4.10
+	github.com/versity/versitygw v0.0.0
+)
 
 require (
 	github.com/aws/aws-sdk-go-v2 v1.36.3 // indirect
@@ -16,6 +19,7 @@ require (
 	github.com/aws/aws-sdk-go-v2/service/internal/s3shared v1.18.15 // indirect
 	github.com/aws/aws-sdk-go-v2/service/s3 v1.79.2 // indirect
 	github.com/aws/smithy-go v1.22.3 // indirect
+	golang.org/x/sys v0.32.0 // indirect
 )
 
 replace github.com/versity/versitygw => /repo
